@@ -76,6 +76,8 @@ type frame struct {
 	debugVars map[string]debugVar
 	parent    *frame
 	curCall   *ssa.CallCommon
+	callBindings []Val
+	curIns    ssa.Instruction
 }
 
 type debugVar struct {
@@ -530,7 +532,85 @@ func (fr *frame) reachable() ([]*ssa.BasicBlock, map[[2]int]bool) {
 	for i, j := 0, len(order)-1; i < j; i, j = i+1, j-1 {
 		order[i], order[j] = order[j], order[i]
 	}
-	return order, back
+	// second pass: the same traversal, but the successors that stay inside the loops of a block are
+	// visited last, so that in reverse postorder a loop body comes before the code after the loop
+	// (obligations inside a loop then do not carry the assumptions of the code that follows it)
+	loops := naturalLoops(order, back)
+	depthIn := func(b, s *ssa.BasicBlock) int {
+		n := 0
+		for _, l := range loops {
+			if l[b.Index] && l[s.Index] {
+				n++
+			}
+		}
+		return n
+	}
+	seen = map[int]bool{}
+	var order2 []*ssa.BasicBlock
+	var dfs2 func(b *ssa.BasicBlock)
+	dfs2 = func(b *ssa.BasicBlock) {
+		seen[b.Index] = true
+		succs := append([]*ssa.BasicBlock(nil), b.Succs...)
+		sort.SliceStable(succs, func(i, j int) bool { return depthIn(b, succs[i]) < depthIn(b, succs[j]) })
+		for _, s := range succs {
+			if back[[2]int{b.Index, s.Index}] {
+				continue
+			}
+			if !seen[s.Index] {
+				dfs2(s)
+			}
+		}
+		order2 = append(order2, b)
+	}
+	dfs2(fr.fn.Blocks[0])
+	for i, j := 0, len(order2)-1; i < j; i, j = i+1, j-1 {
+		order2[i], order2[j] = order2[j], order2[i]
+	}
+	return order2, back
+}
+
+// naturalLoops: block sets of the natural loops of the back edges (one per head)
+func naturalLoops(order []*ssa.BasicBlock, back map[[2]int]bool) []map[int]bool {
+	byIdx := map[int]*ssa.BasicBlock{}
+	for _, b := range order {
+		byIdx[b.Index] = b
+	}
+	heads := map[int]map[int]bool{}
+	for e := range back {
+		h := e[1]
+		if heads[h] == nil {
+			heads[h] = map[int]bool{h: true}
+		}
+		l := heads[h]
+		var stack []*ssa.BasicBlock
+		if !l[e[0]] {
+			l[e[0]] = true
+			stack = append(stack, byIdx[e[0]])
+		}
+		for len(stack) > 0 {
+			b := stack[len(stack)-1]
+			stack = stack[:len(stack)-1]
+			if b == nil {
+				continue
+			}
+			for _, p := range b.Preds {
+				if !l[p.Index] && byIdx[p.Index] != nil {
+					l[p.Index] = true
+					stack = append(stack, p)
+				}
+			}
+		}
+	}
+	var out []map[int]bool
+	var hs []int
+	for h := range heads {
+		hs = append(hs, h)
+	}
+	sort.Ints(hs)
+	for _, h := range hs {
+		out = append(out, heads[h])
+	}
+	return out
 }
 
 func (fr *frame) findLoops(order []*ssa.BasicBlock, back map[[2]int]bool) {
@@ -779,6 +859,7 @@ func (fr *frame) runRecoverBlock() {
 
 func (fr *frame) instr(ins ssa.Instruction, back map[[2]int]bool) {
 	vc := fr.vc
+	fr.curIns = ins
 	switch x := ins.(type) {
 	case *ssa.DebugRef:
 		if id, ok := x.Expr.(*ast.Ident); ok && id.Name != "_" {
@@ -1612,13 +1693,14 @@ func (fr *frame) lookup(x *ssa.Lookup) {
 	v := ite(has, app("select", app("select", vc.get(fr.mem, val), m.S), k.S), vc.zero(mt.Elem()))
 	if x.CommaOk {
 		okv := vc.define(fr.pfx+x.Name()+".ok", sBool, has)
-		pd := vc.define(fr.pfx+x.Name()+".v", vc.sortOf(mt.Elem()), v)
+		pd := vc.defineConst(fr.pfx+x.Name()+".v", vc.sortOf(mt.Elem()), v)
 		pv := Val{T: mt.Elem(), S: pd}
 		vc.assume(implies(and(fr.guard, okv), vc.wf(pv, fr.mem)))
 		fr.vals[x] = Val{T: x.Type(), Tup: []Val{pv, {T: types.Typ[types.Bool], S: okv}}}
 		return
 	}
-	fr.setVal(x, Val{S: v})
+	// a named constant (not a macro): usable inside quantifier patterns
+	fr.vals[x] = Val{T: x.Type(), S: vc.defineConst(fr.pfx+x.Name(), vc.sortOf(x.Type()), v)}
 	vc.assume(implies(and(fr.guard, has), vc.wf(fr.vals[x], fr.mem)))
 }
 
